@@ -30,6 +30,8 @@ static void Setup(World& w, int nx, int nc, const StructuredData& s1v, const Str
   w.m.Emplace(CstType::function, "[a∈ℬ(R1), b∈R1] a∪{b}");
   w.m.Emplace(CstType::function, "[a∈ℬ(X1)] D{b∈a | ∃c∈a c≠b}");
   w.m.Emplace(CstType::function, "[a∈ℬ(X1), b∈ℬ(X1)] D{c∈a | ∃d∈b d=c}");
+  w.m.Emplace(CstType::function, "[a∈ℬ(X1)] D{b∈a×a | a=a & pr1(b)∈a}");
+  w.m.Emplace(CstType::function, "[a∈ℬ(X1×X1)] D{b∈Pr1(a) | ∃c∈a pr1(c)=b}");
   w.m.Emplace(CstType::predicate, "[a∈ℬ(X1)] a=X1");
   w.m.Emplace(CstType::axiom, "X1=X1");
   for (int i = 0; i < nx; ++i) w.m.Values().AddBasicElement(w.x1, "x" + std::to_string(i));
@@ -155,9 +157,25 @@ static void Handle(const json& c, vh::Report& r) {
         if (!inside) r.Violation("C03", "error-position-outside", wit);
       }
     }
-    if (!ok || sbad) continue;
+    if (!ok) continue;
     // ---- evaluation under the three interpretations
     if (!(On("C01") || On("C02"))) continue;
+    if (sbad) {
+      // accepted by the implementation although the rules reject (a C03 matter): C02 still speaks about it - whatever the
+      // checker accepts must evaluate without fault to a value of the reported type; there is no value oracle
+      if (!On("C02")) continue;
+      for (size_t k = 0; k < worlds.size(); ++k) {
+        ++r.checks; r.Count("evaluations.no-oracle");
+        const auto res = worlds[k]->interp->Evaluate(text, syn);
+        json w2 = wit; w2["interp"] = k; w2["specVerdict"] = sty;
+        if (!res.has_value()) { for (const auto& e : worlds[k]->interp->Errors().All()) if (e.eid == static_cast<uint32_t>(ValueEID::unknownError)) r.Violation("C02", "unknownError", w2); continue; }
+        const bool isBool = std::holds_alternative<bool>(*res), logic = std::holds_alternative<LogicT>(implType);
+        if (logic != isBool) r.Violation("C02", "truth-value-vs-type", w2);
+        else if (!isBool && !rsconv::CompatDeep(std::get<StructuredData>(*res), std::get<Typification>(implType)))
+          r.Violation("C02", "value-not-of-reported-type", w2, { {"got", rsconv::ValueToJson(std::get<StructuredData>(*res))}, {"type", std::get<Typification>(implType).ToString()} });
+      }
+      continue;
+    }
     for (size_t k = 0; k < worlds.size(); ++k) {
       const auto& sv = c["vals"][k]; const auto& kv = c["kvals"][k];
       // recursions the model cannot finish within its fuel: the value is not compared, but the call must still come back
@@ -197,6 +215,8 @@ int main(int argc, char** argv) {
   { std::stringstream ss(args.get("props")); std::string p; while (std::getline(ss, p, ',')) if (!p.empty()) g_props.insert(p); }
   Worlds();   // built once in the parent, inherited by the forked batch workers
   vh::IsoOptions iso; iso.batch = 500; iso.watchdogSeconds = 10;
-  iso.faultPropertyOf = [](const json& c) { return std::string(c["ty"].get<std::string>().rfind("BAD", 0) == 0 ? "C04" : "C02"); };
+  // a fault while an accepted expression is evaluated is C02's; expressions the rules reject are evaluated only when the
+  // implementation accepts them, so under --props C02 every fault is attributed to C02
+  iso.faultPropertyOf = [](const json& c) { return std::string((c["ty"].get<std::string>().rfind("BAD", 0) == 0 && !g_props.count("C02")) ? "C04" : "C02"); };
   return vh::Main(argc, argv, Handle, true, iso);
 }
